@@ -58,6 +58,10 @@ def work_diff(chunk):
         m0 = runner.prepare(spec, opts)
         m0.project.simulate(**runner.sim_kwargs(dict(opts, absence=[])))
         mk = m0.project.time
+        if int(m0.project.status) != 1:
+            # the absence-free run does not complete (resource deadlock): the differential makes no claim
+            col.extra["differential-skipped-model-does-not-complete"] += 1
+            continue
         idx = list(range(0, mk + 2)) + list(extra_idx)
         for k in range(1, maxlen + 1):
             for absence in itertools.combinations(idx, k):
